@@ -255,7 +255,9 @@ public:
 
 	Value make_id(const Op &op)
 	{
-		uint64_t n = next_id++;
+		// a function of the operation's position, not of how many requests were actually sent before it: the same operation carries
+		// the same id under every schedule, whether or not an earlier operation turned out to be a no-op
+		uint64_t n = next_id + (uint64_t)cur_op * 3 + (ids_in_op < 2 ? ids_in_op : 2); ids_in_op++;
 		if (op.idm == ID_STR) return Value::str("r" + std::to_string(n));
 		if (op.idm == scen::ID_LONG) return Value::str(std::string(70, 'L') + std::to_string(n));
 		return Value::num((double)n);
@@ -337,8 +339,10 @@ public:
 		return v;
 	}
 
+	size_t cur_op = 0; unsigned ids_in_op = 0;
 	void do_op(const Op &op, std::vector<ModelEvent> &evs)
 	{
+		cur_op = (size_t)(&op - sc.ops.data()); ids_in_op = 0; // (operations are always elements of sc.ops)
 		simk::Kernel &k = simk::K();
 		vd.stat[std::string("op_") + kind_names[op.kind]]++;
 		if (op.kind == CONNECT) {
@@ -804,7 +808,9 @@ public:
 				have_alt = true; alt_model = before; alt_exp = model::StepExp();
 				for (auto &e : evs) if (e.k == ModelEvent::MESSAGE) {
 					alt_conn = e.conn;
-					const Value *id = e.msg.get("id");
+					const Value *rq = &e.msg;
+					if (rq->is_arr()) { if (rq->a.size() == 1) rq = &rq->a[0]; else { have_alt = false; break; } } // a batch of one is that one request; in a longer batch any member may be the refused one: not decidable here
+					const Value *id = rq->get("id");
 					if (model::valid_id(id)) alt_exp.add(e.conn, model::Model::resp(model::Exp::ERROR, *id, "refused at a resource limit"));
 				}
 			}
@@ -1307,11 +1313,14 @@ public:
 			if (mergeable(sc.ops[next_op])) {
 				uint64_t h = (uint64_t)sc.batching * 0x9E3779B97F4A7C15ull + next_op * 0xD6E8FEB86659FD93ull; h ^= h >> 31; h *= 0xBF58476D1CE4E5B9ull; h ^= h >> 29;
 				size_t want = 1 + (size_t)(h % 3);
-				std::set<int> used; used.insert(live_conn(sc.ops[next_op].conn));
+				std::set<int> used; int last = live_conn(sc.ops[next_op].conn); used.insert(last);
 				while (j < sc.ops.size() && j - next_op < want && mergeable(sc.ops[j]) && !sc.ops[j].join) {
 					int ci = live_conn(sc.ops[j].conn);
-					if (ci < 0 || used.count(ci)) break;
-					used.insert(ci); j++;
+					// another connection, or the one that sent the previous message (pipelined messages arrive in one read): the
+					// processing order stays the order of the operations
+					if (ci < 0 || (used.count(ci) && ci != last)) break;
+					if (sc.ops[j - 1].kind == END) break; // nothing follows an end on that connection
+					used.insert(ci); last = ci; j++;
 				}
 				if (j - next_op > 1) vd.stat["regrouped_steps"]++;
 			}
@@ -1347,7 +1356,7 @@ public:
 			Value arr = Value::arr();
 			size_t k = i + 1;
 			// (a faulty connection sends single messages only: the daemon may drop it between two members of a batch)
-			if (ci >= 0 && !cc[ci].client_ended && !simk::K().conns[cc[ci].kc].daemon_closed && !cc[ci].faulty) {
+			if (ci >= 0 && !cc[ci].client_ended && !simk::K().conns[cc[ci].kc].daemon_closed && !(cc[ci].faulty && opt.model_check)) {
 				batch_sink = &arr; batch_conn = ci;
 				for (; k < sc.ops.size() && k <= i + n; k++) {
 					int kd = sc.ops[k].kind;
